@@ -37,17 +37,37 @@ theorem tick_hello_translated (e : T.Env) (he : EnvOk e) (m en : T.automata) (t 
     rw [htb] at a5 a6
     exact ⟨by rw [h2, a1]; rfl, by rw [← hl, a2], a3, a4, a5, a6⟩
 
+/-- the table invariant of C16 survives the translated tick (inactivity clear, expiry sweep, status update) -/
+theorem tick_inv_translated (e : T.Env) (he : EnvOk e) (m en : T.automata) (t : T.session_table) (p : T.lltd_automata_tick_port)
+    (mx : T.mapping_state) (bx : T.band_state) (ltx : Nat)
+    (hm : AutOk m) (him : IsMapping m) (hen : EnumOk en) (ht : TickTblOk t) (hb : BandOk bx) (hltx : ltx ≤ e.nowMs)
+    (hinv : C16.TInv (tableOfC t)) : C16.TInv (tableOfC (T.automata_tick e m en t p mx bx ltx).sessions) := by
+  obtain ⟨h1, _, _⟩ := automata_tick_eq e he m en t p mx bx ltx hm him hen ht hb hltx
+  have hT := congrArg TickState.table h1
+  unfold tick at hT
+  simp only [] at hT
+  unfold tickMapStage at hT
+  by_cases hin : mapCheckInactive (mapOfC mx) (e.nowMs / 1000) = true
+  · simp only [hin, if_true, Option.map_some, Option.some.injEq] at hT
+    rw [← hT]
+    exact (C16.expire_inv_spec _ _ C16.create_inv).1
+  · have hin' : mapCheckInactive (mapOfC mx) (e.nowMs / 1000) = false := by simpa using hin
+    simp only [hin', Bool.false_eq_true, if_false, Option.map_some, Option.some.injEq] at hT
+    rw [← hT]
+    exact (C16.expire_inv_spec _ _ hinv).1
+
 /-- PURPOSEFUL, for the translated tick: when it invokes the callback the table it leaves behind holds a live session that is not
-    complete (given the table invariant, which `C16T.reach_translated` shows every sequence of translated calls maintains) -/
+    complete (given the table invariant BEFORE the tick - which `C16T.reach_translated` shows every sequence of translated calls
+    maintains and `tick_inv_translated` shows the tick itself preserves) -/
 theorem gate_translated (e : T.Env) (he : EnvOk e) (m en : T.automata) (t : T.session_table) (p : T.lltd_automata_tick_port)
     (mx : T.mapping_state) (bx : T.band_state) (ltx : Nat)
     (hm : AutOk m) (him : IsMapping m) (hen : EnumOk en) (ht : TickTblOk t) (hb : BandOk bx) (hltx : ltx ≤ e.nowMs)
-    (hinv : C16.TInv (tableOfC (T.automata_tick e m en t p mx bx ltx).sessions))
+    (hinv : C16.TInv (tableOfC t))
     (hsent : (T.automata_tick e m en t p mx bx ltx).port_send_hello_calls ≠ 0) :
     ∃ s ∈ (viewOf (tableOfC (T.automata_tick e m en t p mx bx ltx).sessions)).live, s.complete = false := by
   rcases tick_hello_translated e he m en t p mx bx ltx hm him hen ht hb hltx with h | h
   · exact absurd h.1 hsent
-  · exact C12.gate _ hinv h.2.2.2.2.1 h.2.2.2.2.2
+  · exact C12.gate _ (tick_inv_translated e he m en t p mx bx ltx hm him hen ht hb hltx hinv) h.2.2.2.2.1 h.2.2.2.2.2
 
 /-- SILENT ONCE IDLE, for the translated tick -/
 theorem idle_silent_translated (e : T.Env) (he : EnvOk e) (m en : T.automata) (t : T.session_table) (p : T.lltd_automata_tick_port)
